@@ -228,15 +228,22 @@ void Server::Private::remove(EstablisherImpl &establisher)
 
 void Server::Private::remove(TimerImpl &timer)
 {
-  for (MultiMap<int64, TimerImpl *>::Iterator i = _queuedTimers.find(timer.executionTime), end = _queuedTimers.end(); i != end; ++i)
+  MultiMap<int64, TimerImpl *>::Iterator i = _queuedTimers.find(timer.executionTime), end = _queuedTimers.end();
+  if (i != end)
   {
-    if (*i == &timer)
+    // find() returns any of the timers due at that time: start at the first of them
+    for (MultiMap<int64, TimerImpl *>::Iterator prev = i; prev != _queuedTimers.begin(); i = prev)
     {
-      _queuedTimers.remove(i);
-      break;
+      --prev;
+      if (prev.key() != timer.executionTime)
+        break;
     }
-    if (i.key() != timer.executionTime)
-      break;
+    for (; i != end && i.key() == timer.executionTime; ++i)
+      if (*i == &timer)
+      {
+        _queuedTimers.remove(i);
+        break;
+      }
   }
   _timers.remove(timer);
 }
